@@ -42,6 +42,8 @@ ListOk == \A b \in Buckets : \A mk \in 1..3 :
              /\ Len(r.objects) = (IF Cardinality(Matching(b, <<75, 47, 53, 47>>)) > mk THEN mk ELSE Cardinality(Matching(b, <<75, 47, 53, 47>>)))
              /\ r.truncated = (Cardinality(Matching(b, <<75, 47, 53, 47>>)) > mk)
 ASSUME ListOk
+ASSUME FrameInvariance(<<195, 169, 226, 130, 172>>) /\ Cardinality(Frames(<<195, 169, 226, 130, 172>>)) = 16       \* "é€" in UTF-8, every framing
+ASSUME GetOutcomeT(200, FALSE) = "err" /\ GetOutcomeT(200, TRUE) = "ok" /\ GetOutcomeT(404, FALSE) = "notfound"
 ASSUME LastSegment(<<75, 47, 53, 47, 97, 98>>) = <<97, 98>> /\ LastSegment(<<97>>) = <<97>> /\ LastSegment(<<97, 47>>) = <<>>
 ASSUME RealtimePrefix(<<75>>, 57) = <<75, 47, 53, 55, 47>> /\ ArchivePrefix(2024, 5, 1, <<75>>) = <<50, 48, 50, 52, 47, 48, 53, 47, 48, 49, 47, 75>>
 =============================================================================
